@@ -208,6 +208,73 @@ def run_doc(dc):
             pass
 
 
+RDF_BLOCK = ('<rdf:RDF xmlns:rdf="http://www.w3.org/1999/02/22-rdf-syntax-ns#" xmlns:bqbiol="http://biomodels.net/biology-qualifiers/">'
+             '<rdf:Description rdf:about="#%s"><bqbiol:is rdf:resource="urn:c13#%s"/></rdf:Description></rdf:RDF>')
+RDF_PLACES = ['model', 'component', 'variable', 'connection', 'map_components', 'group', 'relationship_ref', 'component_ref',
+              'units', 'unit', 'math_sibling']
+
+
+def rdf_place_doc(place, on_target):
+    """a two-component document whose ONE metadata block about a variable sits at the given (schema-valid) place; the
+    annotated id is on the source or on the receiving end of the connection"""
+    blk = RDF_BLOCK % ('vid', 'term_v')
+    at = lambda p: blk if p == place else ''      # noqa: E731
+    src_id = '' if on_target else ' cmeta:id="vid"'
+    tgt_id = ' cmeta:id="vid"' if on_target else ''
+    return ('<?xml version="1.0"?><model xmlns="http://www.cellml.org/cellml/1.0#" xmlns:cmeta="http://www.cellml.org/metadata/1.0#" '
+            'name="m">' + at('model')
+            + '<units name="ms">' + at('units') + '<unit units="second" prefix="milli">' + at('unit') + '</unit></units>'
+            + '<component name="A">' + at('component') + '<variable name="x" units="second" public_interface="out" '
+            'initial_value="1"%s>' % src_id + at('variable') + '</variable></component>'
+            + '<component name="B"><variable name="x" units="second" public_interface="in"%s/>' % tgt_id
+            + '<variable name="y" units="second"/>' + at('math_sibling')
+            + '<math xmlns="http://www.w3.org/1998/Math/MathML"><apply><eq/><ci>y</ci><ci>x</ci></apply></math></component>'
+            + '<connection>' + at('connection') + '<map_components component_1="A" component_2="B">' + at('map_components')
+            + '</map_components><map_variables variable_1="x" variable_2="x"/></connection>'
+            + '<group>' + at('group') + '<relationship_ref relationship="encapsulation">' + at('relationship_ref')
+            + '</relationship_ref><component_ref component="P">' + at('component_ref') + '<component_ref component="A"/>'
+            '<component_ref component="B"/></component_ref></group><component name="P"/></model>')
+
+
+def run_rdf_place(pc):
+    """the annotation is found through the variable that carries the id after loading, wherever its block was written"""
+    import cellmlmanip
+    place, on_target = pc
+    d = tempfile.mkdtemp(prefix='c13_')
+    path = os.path.join(d, 'm.cellml')
+    try:
+        with open(path, 'w') as f:
+            f.write(rdf_place_doc(place, on_target))
+        try:
+            m = cellmlmanip.load_model(path)
+        except Exception as e:
+            return [], 'raises:' + vlib.err_class(e)       # a placement the schema refuses
+        bad = []
+        carriers = [v for v in m.variables() if v.cmeta_id == 'vid']
+        if len(carriers) != 1:
+            return [('metadata block in <%s>: %d variables carry the id after loading' % (place, len(carriers)), list(pc))], 'loaded'
+        for how, fn in (('get_variable_by_ontology_term', lambda: m.get_variable_by_ontology_term(('urn:c13#', 'term_v'))),
+                        ('get_variables_by_rdf', lambda: m.get_variables_by_rdf(('http://biomodels.net/biology-qualifiers/', 'is'),
+                                                                                ('urn:c13#', 'term_v')))):
+            try:
+                got = fn()
+            except Exception as e:
+                bad.append(('metadata block about #vid written inside <%s> (id on the %s end): %s raises %r although %s carries '
+                            'the id' % (place, 'receiving' if on_target else 'source', how, e, carriers[0].name), list(pc)))
+                continue
+            got = got if isinstance(got, list) else [got]
+            if len(got) != 1 or got[0] is not carriers[0]:
+                bad.append(('metadata block about #vid written inside <%s> (id on the %s end): %s returns %s, the id is carried by %s'
+                            % (place, 'receiving' if on_target else 'source', how, [g.name for g in got], carriers[0].name), list(pc)))
+        return bad, 'loaded'
+    finally:
+        try:
+            os.remove(path)
+            os.rmdir(d)
+        except OSError:
+            pass
+
+
 def run_foreign(seed):
     """annotations whose subject is a resource of ANOTHER document (absolute or relative URI ending in '#<id>' with <id> a
     cmeta id of this model): looking a variable up by such a resource, or by an annotation only that resource carries, never
@@ -294,6 +361,16 @@ def run(ctx):
         ctx.count(case_key=dc, kind='doc:' + outcome)
         for what, detail in bad:
             ctx.violation(what, {'doc': detail})
+    pcs = [(p_, t_) for p_ in RDF_PLACES for t_ in (False, True)]
+    nloaded = 0
+    for pc, (bad, outcome) in zip(pcs, vlib.pmap(run_rdf_place, pcs)):
+        ctx.count(case_key=('rdf_place', pc), kind='rdf-place:' + outcome.split(':')[0])
+        nloaded += outcome == 'loaded'
+        for what, detail in bad:
+            ctx.violation(what, {'rdf_place': detail})
+    if nloaded < 12:
+        ctx.tie_break('only %d of the %d metadata placements load at all: the placement stratum has lost its meaning' % (nloaded, len(pcs)),
+                      {'kind': 'rdf_place'})
     fseeds = [ctx.seed * 1000 + i for i in range(30 if ctx.tier == 'quick' else 400)]
     for sd, bad in zip(fseeds, vlib.pmap(run_foreign, fseeds)):
         ctx.count(case_key=('foreign', sd), kind='foreign-subject')
@@ -321,6 +398,9 @@ def replay(ctx, case):
         for who, what, detail in bad:
             ctx.violation(what, {'conversion_case': case['conversion_case'], 'detail': detail})
         return bad[0][1] if bad else None
+    if 'rdf_place' in case:
+        bad, _ = run_rdf_place(tuple(case['rdf_place']))
+        return bad[0][0] if bad else None
     if 'foreign' in case:
         bad = run_foreign(case['foreign']['seed'])
         return bad[0][0] if bad else None
